@@ -189,3 +189,41 @@ def _mk_dc_ecc(rnd):
     dc.rot_pub, dc.dck_pub = rnd.choice(_DC_KEYS), rnd.choice(_DC_KEYS)
     dc.signature = bytes(rnd.getrandbits(8) for _ in range(64))
     return dc
+
+
+# ---- EdgeLock-Enclave debug credential (v1 container families): signed bytes = exported bytes in front of the signature, no RoT public key inside --------
+from spsdk.dat.debug_credential import DebugCredentialEdgeLockEnclave  # noqa: E402
+
+inline("spsdk.dat.debug_credential:DebugCredentialEdgeLockEnclave.get_data_format")
+
+
+def DCELE(meta_len):
+    return Obj(DebugCredentialEdgeLockEnclave, version=Obj(AbsVersion, major=OneOf(2), minor=OneOf(0, 1, 2)), socc=U32, uuid=Bytes(16), cc_socu=U32, cc_vu=U32,
+               cc_beacon=U32, rot_meta=Obj(AbsRotMeta, _bytes=Bytes(meta_len)), rot_pub=ECCKEY(256, EccCurve.SECP256R1), dck_pub=ECCKEY(256, EccCurve.SECP256R1),
+               signature=Bytes(64))
+
+
+def dc_ele_body(dc):
+    return (dc.version.major.to_bytes(2, "little") + dc.version.minor.to_bytes(2, "little") + dc.socc.to_bytes(4, "little") + dc.uuid
+            + dc.cc_socu.to_bytes(4, "little") + dc.cc_vu.to_bytes(4, "little") + dc.cc_beacon.to_bytes(4, "little") + dc.rot_meta._bytes
+            + dc.dck_pub.x.to_bytes(32, "big") + dc.dck_pub.y.to_bytes(32, "big"))
+
+
+def _mk_dc_ele(rnd):
+    dc = _mk_dc_ecc(rnd)
+    dc.__class__ = DebugCredentialEdgeLockEnclave
+    return dc
+
+
+@contract("spsdk.dat.debug_credential:DebugCredentialEdgeLockEnclave._get_data_to_sign", replay=False)
+def _(self: Union[DCELE(4), DCELE(132)]) -> bytes:
+    returns(dc_ele_body(self), label="version-socc-uuid-socu-vu-beacon-rotmeta-dck-in-this-order")
+    pure()
+    sample_with(lambda rnd: {"self": _mk_dc_ele(rnd)})
+
+
+@contract("spsdk.dat.debug_credential:DebugCredentialEdgeLockEnclave.export", replay=False)
+def _(self: Union[DCELE(4), DCELE(132)]) -> bytes:
+    returns(dc_ele_body(self) + self.signature, label="signed-bytes-then-the-signature")
+    pure()
+    sample_with(lambda rnd: {"self": _mk_dc_ele(rnd)})
